@@ -3,7 +3,7 @@
 From Coq Require Import List Arith Bool.
 From M Require Import Base Flat Hsm HsmSpec.
 From P Require Import HsmForest HsmResolve HsmOffer MonadP CrashGen HsmExec.
-From P Require HsmIff.
+From P Require HsmIff HsmDecl.
 Import ListNotations.
 
 (* ---------- transition resolution ---------- *)
@@ -132,6 +132,32 @@ Theorem C03_result_iff :
                        In t (cands ts q) /\ hdest_ok hm sc t = true /\ HsmIff.tpass ev t = true).
 Proof. intros hm ev c e p f tr f' b NR DET. exact (HsmIff.trigger_iff_avail hm ev c e NR DET p f tr f' b). Qed.
 Print Assumptions C03_result_iff.
+
+(* ---------- the invalid-trigger branch ---------- *)
+(* For EVERY environment (callbacks may do anything), state tree and configuration with unique sibling
+   names: the scope recursion answers None - the only case in which _check_event_result raises
+   MachineError / AttributeError or answers False for ignoring states - exactly when NO active state
+   (no leaf, no ancestor, in no region) has a transition of the event declared for it in any scope;
+   and in that case no callback has run and the configuration is untouched. *)
+Theorem C03_invalid_iff_undeclared :
+  forall (hm : hmachine) (ev : env) (c : ctx) (e : event) (p : nat) (f : forest) tr f' (r : option bool),
+    uniq f = true ->
+    dispatch_f hm ev c e [] f None p f = (tr, f', inr r) ->
+    (r = None <-> ~ HsmDecl.declares hm e f) /\ (r = None -> tr = [] /\ f' = f).
+Proof. exact HsmDecl.dispatch_none_iff. Qed.
+Print Assumptions C03_invalid_iff_undeclared.
+
+(* ... so a trigger of an event that no active state or ancestor declares IS the invalid-trigger check of
+   the active leaves (or the propagation of an exception raised inside the dispatch, which cannot happen
+   when nothing is offered - first disjunct kept for completeness of the case analysis). *)
+Theorem C03_undeclared_is_invalid :
+  forall (hm : hmachine) (ev : env) (c : ctx) (e : event) (p : nat) (f : forest),
+    uniq f = true -> ~ HsmDecl.declares hm e f ->
+    forall tr f' r, HsmIff.trigger_body hm ev c e p f = (tr, f', r) ->
+    (exists x, r = inl x /\ dispatch_f hm ev c e [] f None p f = (tr, f', inl x)) \/
+    (tr = [] /\ f' = f /\ check_leaves hm e (leaves f) p f = ([], f, r)).
+Proof. exact HsmDecl.undeclared_is_invalid. Qed.
+Print Assumptions C03_undeclared_is_invalid.
 
 (* ---------- the same event in two scopes (KF-C03-1) ---------- *)
 (* An ancestor's transition declared inside a state definition wins over its descendant's
